@@ -39,6 +39,8 @@ pub struct Obs {
     pub ts: Vec<[Option<u32>; 5]>,
     /// for Ref nodes: the whole vector
     pub vec: Vec<u32>,
+    /// for maker nodes: (type, value read through the handle) of each returned interned handle
+    pub its: Vec<(usize, u32)>,
 }
 
 pub struct E1<'c> {
@@ -58,7 +60,7 @@ pub struct E1<'c> {
 
 pub fn expected_obs(ev: &mut Eval, prog: &Program, n: usize, arg: u32, deep: bool) -> Result<Obs, Abort> {
     let d = ev.eval_node(n, arg);
-    let mut o = Obs { v: d.v, ts: vec![], vec: vec![] };
+    let mut o = Obs { v: d.v, ts: vec![], vec: vec![], its: vec![] };
     match prog.nodes[n].kind {
         Kind::Ref => {
             o.vec = vec![d.v];
@@ -83,6 +85,7 @@ pub fn expected_obs(ev: &mut Eval, prog: &Program, n: usize, arg: u32, deep: boo
                 }
                 o.ts.push(row);
             }
+            o.its = d.it.clone();
         }
         _ => {}
     }
@@ -98,7 +101,7 @@ pub fn observe(db: &dyn SimDb, n: usize, arg: u32, deep: bool) -> Obs {
     match prog.nodes[n].kind {
         Kind::Ref => {
             let v = q_ref(db, sh.key(n));
-            Obs { v: v[0], ts: vec![], vec: v.clone() }
+            Obs { v: v[0], ts: vec![], vec: v.clone(), its: vec![] }
         }
         Kind::Mk => {
             let o = q_mk(db, sh.key(n));
@@ -115,9 +118,10 @@ pub fn observe(db: &dyn SimDb, n: usize, arg: u32, deep: bool) -> Obs {
                 }
                 rows.push(row);
             }
-            Obs { v: o.v.0, ts: rows, vec: vec![] }
+            let its = o.its.iter().map(|h| (h.ty(), h.v(db))).collect();
+            Obs { v: o.v.0, ts: rows, vec: vec![], its }
         }
-        _ => Obs { v: request(db, n, arg), ts: vec![], vec: vec![] },
+        _ => Obs { v: request(db, n, arg), ts: vec![], vec: vec![], its: vec![] },
     }
 }
 
@@ -179,7 +183,7 @@ impl<'c> E1<'c> {
     }
 
     /// A top-level read request with the universal value oracle.
-    fn do_query(&mut self, n: usize, arg: u32, deep: bool, via_clone: bool) {
+    pub fn do_query(&mut self, n: usize, arg: u32, deep: bool, via_clone: bool) {
         self.queries += 1;
         let prog = &self.case.prog;
         let exp: Result<Obs, Abort>;
@@ -192,7 +196,7 @@ impl<'c> E1<'c> {
             bad_mode = cr.bad_active(n);
             either_cycle_panic = cr.panic_possible(n);
             must_panic = either_cycle_panic && cr.scratch_panics(n) && self.queries == 1;
-            exp = if must_panic { Err(Abort::Cycle) } else { Ok(Obs { v: cr.vals[n], ts: vec![], vec: vec![] }) };
+            exp = if must_panic { Err(Abort::Cycle) } else { Ok(Obs { v: cr.vals[n], ts: vec![], vec: vec![], its: vec![] }) };
             if bad_mode {
                 self.out.bump("bad_mode_requests");
             }
@@ -428,7 +432,12 @@ impl<'c> E1<'c> {
                     }
                     self.drain(&crate::oracles::StepInfo::other("intern_outside"));
                 }
-                Step::Accumulated { n, arg } => crate::oracles::accumulated_step(&mut self, *n as usize, *arg),
+                Step::Accumulated { n, arg } => {
+                    // bring the root up to date with a plain request first (accumulated() does the
+                    // same fetch internally), then read the accumulated values
+                    self.do_query(*n as usize, *arg, false, false);
+                    crate::oracles::accumulated_step(&mut self, *n as usize, *arg)
+                }
                 Step::LocalCancelQuery { .. } | Step::SnapshotRestore | Step::Hold { .. } => {
                     crate::oracles::special_step(&mut self, st.clone());
                 }
